@@ -18,6 +18,9 @@ node).  The caller splices the unparsed function back into the module source.  C
   slice0     x[0:n]           <-> x[:n]
   range0     range(n)         ->  range(0, n)
   untuple    a, b = x, y      ->  a = x; b = y           when y does not read a
+  annot      type hints added to the parameters and the return value
+  newparam   an unused trailing keyword parameter `_reserved=None` added
+  deadstore  an unused `_checkpoint = 0` inserted
 """
 
 import ast
@@ -206,6 +209,40 @@ def variants(fn, resolve_callee=None):
                     recv = x.value.func.value
                     x.value = ast.Call(func=ast.Attribute(value=ast.Name(id='np', ctx=ast.Load()), attr='where', ctx=ast.Load()), args=[recv], keywords=[])
                 yield 'nonzero', 'line %d c.nonzero()[0] -> np.where(c)[0]' % ln, (lambda i=i, f=f: _edit(fn, i, f))
+    # ---- signature-level rewrites
+    def sig_annot():
+        c = copy.deepcopy(fn)
+        for a in c.args.args:
+            if a.arg not in ('self', 'cls'):
+                a.annotation = ast.Name(id='object', ctx=ast.Load())
+        c.returns = ast.Name(id='object', ctx=ast.Load())
+        ast.fix_missing_locations(c)
+        return c
+    yield 'annot', 'type hints added', sig_annot
+
+    def sig_param():
+        c = copy.deepcopy(fn)
+        if c.args.vararg or c.args.kwarg or c.args.kwonlyargs:
+            return None
+        c.args.args.append(ast.arg(arg='_reserved', annotation=None))
+        c.args.defaults.append(ast.Constant(value=None))
+        ast.fix_missing_locations(c)
+        return c
+    yield 'newparam', 'unused trailing keyword parameter added', sig_param
+
+    def dead_store(pos):
+        def thunk():
+            c = copy.deepcopy(fn)
+            body = c.body
+            k = min(pos, len(body))
+            if k == 0 and body and isinstance(body[0], ast.Expr) and isinstance(body[0].value, ast.Constant):
+                k = 1
+            body.insert(k, ast.Assign(targets=[ast.Name(id='_checkpoint', ctx=ast.Store())], value=ast.Constant(value=0)))
+            ast.fix_missing_locations(c)
+            return c
+        return thunk
+    for pos in (1, max(1, len(fn.body) // 2), len(fn.body) - 1):
+        yield 'deadstore', 'unused `_checkpoint = 0` inserted at %d' % pos, dead_store(pos)
     # ---- block-level rewrites
     def block_edit(bi, fun):
         def thunk():
